@@ -1,0 +1,12 @@
+// Copyright 2025 OWASP Core Rule Set Project
+// SPDX-License-Identifier: Apache-2.0
+
+package cmd
+
+import "strings"
+
+// globEscape makes the characters that are special to filepath.Glob literal: the name of a directory
+// is a name, not a pattern.
+func globEscape(directory string) string {
+	return strings.NewReplacer(`\`, `\\`, `*`, `\*`, `?`, `\?`, `[`, `\[`).Replace(directory)
+}
